@@ -403,6 +403,18 @@ def _pair_payloads(d, rng):
         cur = (a >> f["BitOffset"]) & ((1 << f["BitLength"]) - 1)
         v = (cur + 1 + rng.getrandbits(2)) % (1 << min(f["BitLength"], 6))
         out.append((a, _set(a, f["BitOffset"], f["BitLength"], v), nb, "key"))
+        # wide key fields (MMSI, serial / unique numbers): two LARGE values that differ in their last digits only, and
+        # values around every power of ten — a key text that keeps a limited number of digits would merge them
+        wide = [k for k in keys if k["BitLength"] >= 20 and not k.get("Signed")]
+        if wide:
+            f = rng.choice(wide)
+            top = (1 << f["BitLength"]) - 3
+            v1 = min(top - 1000, rng.choice([rng.randrange(200000000, 999999000), rng.randrange(1000000, 99999999),
+                                             10 ** rng.randint(6, 9) + rng.randrange(0, 5000)]))
+            v1 = max(v1, 1)
+            v2 = v1 + rng.choice([1, 1, 2, 9, 10, 100, 999])
+            pa = _set(a, f["BitOffset"], f["BitLength"], v1)
+            out.append((pa, _set(a, f["BitOffset"], f["BitLength"], v2), nb, "key"))
     return out
 
 
